@@ -1,4 +1,5 @@
 import CifModel.Lemmas.ParseCBLayout
+import CifModel.Lemmas.ParseCBLayoutDup
 import CifModel.Lemmas.ParseCBFuel
 import CifModel.Lemmas.ParseCBGrammar
 import CifModel.Lemmas.ParseCBDup
@@ -120,6 +121,24 @@ theorem C15_layout_callbacks (p : Prog) (storing : Bool) (toks toks' : List Tok)
   refine ⟨marks, by omega, ?_, ?_, m4⟩
   · unfold parseCB C15_wsOf; exact m2
   · unfold parseCB C15_wsOf; rw [hf]; exact m3
+
+/-- **Layout independence and layout callbacks with the duplicate diagnostics** (model `parseCBD`: DUP_* diagnostics, accepting error
+    callback): the statements of `C15_layout_independent` and `C15_layout_callbacks` for ALL token sequences — also those of documents
+    with repeated block codes, frame codes and data names —, all programs, both modes.  The error callbacks are among the callbacks
+    that do not depend on layout. -/
+theorem C15_dup_layout (p : Prog) (norm : Str → Str) (storing : Bool) (toks toks' : List Tok) (h : SkelL toks toks') :
+    (parseCBD p norm storing toks').2.1 = (parseCBD p norm storing toks).2.1
+    ∧ (parseCBD p norm storing toks').2.2 = (parseCBD p norm storing toks).2.2
+    ∧ C15_structOf (parseCBD p norm storing toks').1 = C15_structOf (parseCBD p norm storing toks).1
+    ∧ ∃ marks : List Int, marks.length ≤ toks.length
+      ∧ C15_wsOf (parseCBD p norm storing toks).1 = (List.zipWith segEvents marks (toks.map (·.pre))).flatten
+      ∧ C15_wsOf (parseCBD p norm storing toks').1 = (List.zipWith segEvents marks (toks'.map (·.pre))).flatten
+      ∧ (NoSkipP p → ∀ d ∈ marks, d ≤ 0) := by
+  have hf : fuelFor toks' = fuelFor toks := by unfold fuelFor; rw [h.length]
+  obtain ⟨a, b, c, marks, m1, m2, m3, m4⟩ := cifD_layout p norm 1 storing (fuelFor toks) h
+  unfold parseCBD C15_structOf C15_wsOf
+  rw [hf]
+  exact ⟨a, b, c, marks, by omega, m2, m3, m4⟩
 
 /-- all whitespace runs and comments of a layout, as callbacks -/
 def C15_layoutEvents (lay : List (List Seg)) : List Ev := (lay.map (segEvents 0)).flatten
